@@ -278,6 +278,12 @@ func runGrp(t *testing.T, tk []string) string {
 		default:
 			balancer = kgo.CooperativeStickyBalancer()
 		}
+		if bal == 4 && seed%2 == 0 {
+			// KIP-848 with the server-side range assignor: a member that sorts before the owner of a partition takes it
+			// over, so with few partitions an owner loses everything it has in one reconciliation (the uniform
+			// assignor is sticky and almost never produces an empty target assignment)
+			balancer = kgo.RangeBalancer()
+		}
 		opts := append([]kgo.Opt{
 			kgo.WithContext(gctx),
 			kgo.ConsumerGroup("g"), kgo.ConsumeTopics("t"), kgo.Balancers(balancer),
